@@ -532,6 +532,8 @@ func c15WriteDeadlineCase(c *Ctx) *Result {
 	var sig, detail string
 	// the peer never reads: the writer must be stopped by the deadline, in this call or a later one
 	buf := make([]byte, chunk)
+	wkey := splitmix(uint64(c.Seed)*99991 + uint64(c.Idx))
+	var woff int64 // bytes accepted by Write so far: the stream the peer must eventually read
 	for k := 0; k < 2 && sig == ""; k++ {
 		type wres struct {
 			total, calls int
@@ -542,7 +544,9 @@ func c15WriteDeadlineCase(c *Ctx) *Result {
 		go func() {
 			var w wres
 			for w.total < 256<<20 {
+				fillStream(wkey, woff, buf)
 				n, err := conn.Write(buf)
+				woff += int64(n)
 				w.total += n
 				w.calls++
 				if err != nil {
@@ -583,6 +587,70 @@ func c15WriteDeadlineCase(c *Ctx) *Result {
 			sig, detail = k2, fmt.Sprintf("%s: a Write of %d bytes is still blocked 30 s after the %s deadline set with %s (udp=%v, %s)", side, chunk, kind, setter, udp, stall)
 			if os.Getenv("VERIF_DUMP") != "" {
 				res.Witness = dumpMieru()
+			}
+		}
+	}
+	// UDP: the peer starts reading after all; what Write accepted (timed-out calls
+	// included) and what is written afterwards must arrive intact and in order
+	if sig == "" && udp && stall == "peer-not-reading" {
+		peer := sc
+		if side == "server" {
+			peer = cc
+		}
+		conn.SetDeadline(time.Time{})
+		var rmu sync.Mutex
+		var roff int64
+		var rbad string
+		go func() {
+			b := make([]byte, 65536)
+			for {
+				n, err := peer.Read(b)
+				if n > 0 {
+					rmu.Lock()
+					if bad := checkStream(wkey, roff, b[:n]); bad >= 0 && rbad == "" {
+						rbad = fmt.Sprintf("byte %d read after the write time-outs differs from what Write had accepted", roff+int64(bad))
+					}
+					roff += int64(n)
+					rmu.Unlock()
+				}
+				if err != nil {
+					return
+				}
+			}
+		}()
+		for k := 0; k < 3; k++ {
+			b := make([]byte, 1+r.Intn(3000))
+			fillStream(wkey, woff, b)
+			conn.SetWriteDeadline(time.Now().Add(100 * time.Second))
+			n, err := conn.Write(b)
+			woff += int64(n)
+			if err != nil {
+				break
+			}
+		}
+		for i := 0; i < 1200; i++ {
+			rmu.Lock()
+			done := roff >= woff || rbad != ""
+			rmu.Unlock()
+			if done {
+				break
+			}
+			time.Sleep(100 * time.Millisecond)
+		}
+		rmu.Lock()
+		res.Obs["bytes_compared"] = float64(roff)
+		switch {
+		case rbad != "":
+			sig, detail = "stream-corrupted-after-write-timeout", rbad
+		case roff < woff && isVirtual:
+			sig, detail = "stream-stuck-after-write-timeout", fmt.Sprintf("Write had accepted %d bytes (some calls timed out); once the peer read again only %d arrived within 120 s", woff, roff)
+		}
+		rmu.Unlock()
+		rep := analyzeUDP(env, WireOpts{Users: env.Cfg.Users, UDP: true, MTU: [2]int{env.Cfg.MTUC, env.Cfg.MTUS}, ServerAddr: env.Cfg.serverAddr().String()})
+		res.Also = append(res.Also, rep.Findings...)
+		for k, v := range rep.Obs {
+			if _, ok := res.Obs[k]; !ok {
+				res.Obs[k] = v
 			}
 		}
 	}
